@@ -1158,6 +1158,11 @@ func (g *pg) stmt(n int) string {
 
 		return g.assignStmt(n)
 
+	case 29:
+		// closures created in (nested blocks of) a loop body, called after their
+		// iteration has ended (loopclosure_test.go)
+		return g.closureLoopStmt(n)
+
 	default:
 		return g.assignStmt(n)
 	}
